@@ -30,7 +30,7 @@ RULE = ('configurations = subsets (size<=k, distinct targets) of the binding poo
 ASSUMPTIONS = ['literally representable = value of the C02 grammar (finite floats, no sets, no arbitrary objects) plus '
                'references / macros / constants', 'a section whose bindings are all non-literal is printed as "# None." '
                'and is not expected to reappear after the round trip']
-WITNESSES = ['roundtrip_equal_value_and_type', 'nonliteral_omitted', 'permutation_invariant', 'second_text_identical',
+WITNESSES = ['same_named_methods_of_same_named_classes', 'roundtrip_equal_value_and_type', 'nonliteral_omitted', 'permutation_invariant', 'second_text_identical',
              'wrapped_value_roundtrip', 'markdown_verbatim', 'sections_sorted', 'imports_kept', 'case_colliding_names',
              'module_disambiguation', 'method_target', 'macro_target', 'dynamic_roundtrip', 'narrow_width']
 
@@ -79,6 +79,16 @@ def setup():
   K.meth.__qualname__ = 'K.meth'
   gin.register(K.meth)
   gin.register(K)
+  # two classes with the same name in different modules, each with a registered method of the same name
+  for modname in ('east.jobs', 'west.jobs'):
+    ns = {}
+    exec('class Worker:\n  def __init__(self, n=None):\n    self.n = n\n'  # pylint: disable=exec-used
+         '  def run(self, speed=None):\n    return speed\n', ns)
+    W = ns['Worker']
+    W.__module__ = modname
+    W.run.__module__ = modname
+    gin.register(W.run)
+    gin.register(W)
   d = tempfile.mkdtemp(prefix='c06_')
   SCRATCH[0] = d
   os.makedirs(os.path.join(d, 'c06pkg', 'sub'))
@@ -171,7 +181,10 @@ TARGETS = [T0, ('a', 'c06.f', 'x'), ('a/b', 'c06.f', 'y'), ('', 'pkg.mod.dup', '
            ('', 'c06.cased', 'x'), ('', 'c06.cased', 'X'), ('', 'c06.cased', 'T'), ('', 'c06.cased', 't'),
            ('a', 'c06.cased', 'aB'), ('a', 'c06.cased', 'Ab')]
 OTHER_KINDS = ['int', 'str_long_spaces', 'obj', 'nested_wide', 'intenum']
-POOL = [(T0, k) for k in VALUES] + [(t, k) for t in TARGETS[1:] for k in OTHER_KINDS]
+SAME_NAMED_METHODS = [('', 'east.jobs.Worker.run', 'speed'), ('', 'west.jobs.Worker.run', 'speed'),
+                      ('', 'west.jobs.Worker', 'n')]
+POOL = ([(T0, k) for k in VALUES] + [(t, k) for t in TARGETS[1:] for k in OTHER_KINDS] +
+        [(t, k) for t in SAME_NAMED_METHODS for k in ('int', 'obj')])
 WIDTHS = lambda ci: [ci + 1, ci + 2, 10, 20, 40, 80, 200]  # noqa: E731
 INDENTS = [0, 2, 4, 8]
 
@@ -310,7 +323,8 @@ def roundtrip(bindings, mll, ci, how, res, desc):
   def inner(n):
     sel = n.rsplit('/', 1)[-1]
     parts = sel.split('.')
-    return (parts[-1] if not ('K.meth' in sel) else 'k.meth').lower()
+    is_method = sel.endswith('K.meth') or sel.endswith('Worker.run')
+    return ('.'.join(parts[-2:]) if is_method else parts[-1]).lower()
   keys = [inner(n) for n in names]
   if keys != sorted(keys):
     res.violation('sections_not_sorted', '%r: sections not in alphabetical order: %r' % (desc, names), desc)
@@ -357,6 +371,8 @@ def run_config(idx_list, tier, res):
     res.w('method_target')
   if any(t[1] == 'gin.macro' for t in tset):
     res.w('macro_target')
+  if sum(t[1].endswith('Worker.run') for t in tset) == 2:
+    res.w('same_named_methods_of_same_named_classes')
   for ci in INDENTS:
     for mll in WIDTHS(ci):
       if (mll, ci) == (80, 4):
